@@ -131,7 +131,7 @@ fn section_one<const N: usize>(id: u16, minor: u16) {
 // @verif what=string-table section decoder on arbitrary 4- and 8-byte payloads: Ok/Err, never a panic, and its Vec::with_capacity(count) request stays proportional to the payload (count is an untrusted u32)
 // @verif fns=bytecode::decode::{decode_section_data,decode_string_table}, bytecode::reader::BytecodeReader
 // @verif bound=every payload of 4 and of 8 bytes, format minor version 0 and 1
-// @verif stub=alloc::vec::Vec::<T>::with_capacity -> allocation monitor (asserts cap*size_of::<T>() <= 128*|payload|+256, returns Vec::new()); alloc::fmt::format -> empty String
+// @verif stub=alloc::vec::Vec::<T>::with_capacity -> allocation monitor (asserts cap*size_of::<T>() <= 128*|payload|+256, then reserves the requested capacity); alloc::fmt::format -> empty String
 #[kani::proof]
 #[kani::stub(std::vec::Vec::with_capacity, monitored_with_capacity)]
 #[kani::stub(alloc::fmt::format, crate::common::empty_format)]
@@ -142,7 +142,6 @@ fn c11_string_table_decoder_bounded_allocation() {
 
 // (probed, not registered: the TYPE_TABLE section decoder exhausts 16 GB even for 4- and 8-byte payloads - offsets table +
 //  nested entry readers; outside the claim.)
-}
 
 // @verif prop=C11 kernel=K2 tiers=thorough timeout=3000 unwind=1 stubbing=yes mem=16 replay_native=stbc-string-table loops=decode_section_data:4,decode_type_table:4,decode_type_entry:4,decode_string_table:4,Iterator:4,from_utf8:6,run_utf8_validation:6,new:26,drop_glue::<[:4,memcmp:6,compare_bytes:6,to_vec:14
 // @verif what=const_pool section decoder (section id 3) on arbitrary 4- and 12-byte payloads: Ok/Err, never a panic or out-of-bounds read, every Vec::with_capacity(count) request proportional to the payload
